@@ -5,7 +5,7 @@ from pyvc.state import declare_class, ghost
 ENT = 'saml2_tophat.entity:Entity'
 MDS = 'saml2_tophat.mdstore:MetadataStore'
 declare_class('saml2_tophat.config:Config', fields={
-    'preferred_binding': 'Dict(Str, List(Str))', 'accepted_time_diff': 'Any', 'entityid': 'Any',
+    'preferred_binding': 'Dict(Str, List(Str))', 'accepted_time_diff': 'Opt(Int)', 'entityid': 'Any',
     'attribute_converters': 'Any', 'metadata': "Opt(Inst('%s'))" % MDS})
 declare_class(ENT, fields={
     'entity_type': 'Str', 'config': "Inst('saml2_tophat.config:Config')",
@@ -81,3 +81,62 @@ contract(ENT + '.response_args[AuthnRequest]', variant_of=ENT + '.response_args'
                  'IndexError': 'True', 'TypeError': 'True'},
          modifies=[],
          clauses_from={'C09': ['C09-destination-is-registered-or-soap', 'C09-supplied-url-only-if-registered']})
+
+
+# ================================================================================================ C02: Entity._parse_response
+ARQ = 'saml2_tophat.response:AuthnResponse'
+contract('saml2_tophat.response:StatusResponse.__init__', inline=True)
+contract(ARQ + '.__init__', inline=True)
+contract('saml2_tophat.config:Config.endpoint', pure=True, trusted=True, params=['self', 'service', 'binding', 'context'],
+         defaults={'binding': None, 'context': None}, returns='List(Str)',
+         note='ASSUMED here: the endpoints configured for that service and binding (repository code, a 15-line filter)')
+contract(ENT + '.unravel', pure=True, trusted=True, params=['txt', 'binding', 'msgtype'], defaults={'msgtype': 'response'},
+         returns='Union(Str, Bytes, NoneT)', raises={'UnknownBinding': 'True', 'UnravelError': 'True'},
+         note='ASSUMED here: transport decoding (C14 decoders)')
+
+_KW = ['outstanding_queries', 'outstanding_certs', 'allow_unsolicited', 'want_assertions_signed',
+       'want_assertions_or_response_signed', 'want_response_signed', 'return_addrs', 'entity_id', 'attribute_converters',
+       'allow_unknown_attributes', 'conv_info', 'valid_destination_regex']
+_KWSET = ' and '.join("has_key(kwargs, '%s')" % k for k in _KW)
+_R = 'as_type(result, "Inst(\'%s\')")' % ARQ
+contract(ENT + '._parse_response[AuthnResponse]', variant_of=ENT + '._parse_response',
+         consts={'service': 'assertion_consumer_service'},
+         types={'xmlstr': 'Any', 'response_cls': "Cls('%s')" % ARQ, 'binding': 'Opt(Str)', 'outstanding_certs': 'Any',
+                'kwargs': 'Dict(Str, Any)'},
+         returns="Opt(Inst('%s'))" % ARQ, feas_ms=60, merge_exits=False,
+         requires=[_KWSET, 'forall(lambda k: implies(has_key(kwargs, k), %s), "Val")' % ' or '.join("k == '%s'" % k for k in _KW),
+                   "is_str(kwargs['entity_id'])", "kwargs['valid_destination_regex'] is None or is_str(kwargs['valid_destination_regex'])",
+                   "typed(kwargs['return_addrs'], 'Opt(List(Str))')", "kwargs['conv_info'] is None or typed(kwargs['conv_info'], 'Dict(Str, Any)')",
+                   "kwargs['outstanding_queries'] is None or typed(kwargs['outstanding_queries'], 'Dict(Str, Any)')",
+                   'outstanding_certs is None'],
+         hints={('keys', 'kwargs'): _KW},
+         lets={'Wr': "truthy(kwargs['want_response_signed'])", 'Wa': "truthy(kwargs['want_assertions_signed'])",
+               'We': "truthy(kwargs['want_assertions_or_response_signed'])"},
+         ensures=[
+             # C02: an accepted response meets every enabled requirement with a signature that is present and verified ...
+             ('C02-response-signature-required', 'implies(result is not None and Wr, truthy(%s.response.signature))' % _R),
+             ('C02-assertion-signatures-required',
+              'implies(result is not None and Wa and isinstance(%s.response, "saml2_tophat.samlp:Response"), '
+              'forall(lambda k: truthy(%s.assertions[k].signature), 0, len(%s.assertions)))' % (_R, _R, _R)),
+             ('C02-either-or',
+              'implies(result is not None and We and isinstance(%s.response, "saml2_tophat.samlp:Response"), '
+              'truthy(%s.response.signature) or forall(lambda k: truthy(%s.assertions[k].signature), 0, len(%s.assertions)))'
+              % (_R, _R, _R, _R)),
+             # ... and a signature that is present is never ignored, required or not
+             ('C02-present-response-signature-verified',
+              'implies(result is not None and truthy(%s.response.signature) and not truthy(%s.do_not_verify) and truthy(%s.response.id), '
+              'SIG_OK(%s.sec, %s.origxml, %s.response, cname(%s.response), None))' % (_R, _R, _R, _R, _R, _R, _R)),
+             ('C02-present-assertion-signatures-verified',
+              'implies(result is not None and isinstance(%s.response, "saml2_tophat.samlp:Response"), '
+              'forall(lambda k: implies(truthy(%s.assertions[k].signature) and %s.do_not_verify is False and truthy(%s.assertions[k].id), '
+              'SIG_OK(%s.sec, %s.xmlstr, %s.assertions[k], cname(%s.assertions[k]), None)), 0, len(%s.assertions)))'
+              % (_R, _R, _R, _R, _R, _R, _R, _R, _R)),
+             # the forced requirements are restored to the configured values
+             ('C02-flags-restored', 'implies(result is not None, truthy(%s.require_response_signature) == Wr and '
+                                    'truthy(%s.require_signature) == Wa)' % (_R, _R))],
+         raises={'Exception': 'True'},
+         modifies=['dict(kwargs)', 'lists', 'dicts', '*.assertion', '*.encrypted_assertion', '*.subject_confirmation'],
+         loops={0: {'inv': []}},
+         clauses_from={'C02': ['C02-response-signature-required', 'C02-assertion-signatures-required', 'C02-either-or',
+                               'C02-present-response-signature-verified', 'C02-present-assertion-signatures-verified',
+                               'C02-flags-restored']})
